@@ -166,6 +166,11 @@ impl BuiltInFunction {
                     unreachable!()
                 };
 
+                // nothing to call the function on: the result is an empty list
+                if v.0.borrow().is_empty() {
+                    return Ok((Some(Primitive::Vector(GcVector::default())), None));
+                }
+
                 #[derive(Debug)]
                 struct MapOp {
                     callback_path: String,
@@ -199,7 +204,10 @@ impl BuiltInFunction {
                         let this_index = self.index.get();
                         self.index.set(this_index + 1);
                         let underlying = self.underlying.0.borrow();
-                        let this_value: Primitive = underlying[this_index as usize].clone();
+                        let this_value: Primitive = underlying
+                            .get(this_index as usize)
+                            .context("the list became shorter while its elements were being visited")?
+                            .clone();
 
                         Ok(JumpRequest {
                             destination: JumpRequestDestination::Standard(
@@ -244,6 +252,11 @@ impl BuiltInFunction {
                     unreachable!()
                 };
 
+                // nothing to call the function on: the result is an empty list
+                if v.0.borrow().is_empty() {
+                    return Ok((Some(Primitive::Vector(GcVector::default())), None));
+                }
+
                 #[derive(Debug)]
                 struct FilterOp {
                     callback_path: String,
@@ -276,7 +289,10 @@ impl BuiltInFunction {
                         let this_index = self.index.get();
                         self.index.set(this_index + 1);
                         let underlying = self.underlying.0.borrow();
-                        let this_value: Primitive = underlying[this_index as usize].clone();
+                        let this_value: Primitive = underlying
+                            .get(this_index as usize)
+                            .context("the list became shorter while its elements were being visited")?
+                            .clone();
 
                         Ok(JumpRequest {
                             destination: JumpRequestDestination::Standard(
